@@ -70,6 +70,7 @@ def verify_function(I: Interp, q: str, prop: str) -> FuncResult:
     try:
         st, params = init_state(I, c, fi)
         entry_env = dict(st.env)
+        I.cur_entry = entry_env
         for nm, expr in c.requires_l + c.assumes_l:
             st.pc.append(I.spec_bool(st, expr, entry_env, old=st.snapshot()))
         st.old = st.snapshot()
@@ -96,7 +97,7 @@ def verify_function(I: Interp, q: str, prop: str) -> FuncResult:
         res.status, res.reason = "error", f"spec error: {e}"
         del I.obligs[n0:]
     finally:
-        I.cur, I.cur_q = None, None
+        I.cur, I.cur_q, I.cur_entry = None, None, None
     res.obligs = I.obligs[n0:]
     return res
 
@@ -108,7 +109,7 @@ def post_obligations(I, c, o, entry_env, fi):
         result = o.val if o.val is not None else Sym(NONE)
         env["result"] = result
         for nm, expr in c.ensures_l:
-            I.oblige(st, f"post:{nm}", I.spec_bool(st, expr, env, old=st.old), kind="post", extra=_exprs(st, entry_env, result))
+            I.oblige(st, f"post:{nm}", I.spec_bool(st, expr, env, old=st.old), kind="post", extra=_exprs(st, entry_env, result), clause=expr)
         for r in c.raises_l:
             if r.iff and r.when is not None:
                 nm = r.name or "|".join(x.split(".")[-1] for x in r.classes)
@@ -264,11 +265,25 @@ def pyval(model, t):
 def extract_model(m, ob):
     out = {}
     ex = ob.extra or {}
+    heap0 = ex.get("heap0") or {}
+    def deep(v, depth=0):
+        if isinstance(v, dict) and "ref" in v and v["ref"] >= 0 and depth < 3:
+            fields = {}
+            for f, arr in heap0.items():
+                try:
+                    fields[f] = deep(pyval(m, z3.Select(arr, z3.IntVal(v["ref"]))), depth + 1)
+                except Exception:
+                    pass
+            v = dict(v); v["fields"] = fields
+        return v
     for k, t in (ex.get("args") or {}).items():
         try:
-            out[k] = pyval(m, t)
+            out[k] = deep(pyval(m, t))
         except Exception as e:      # noqa
             out[k] = f"<{e}>"
+    for g, t in (ex.get("ghost0") or {}).items():
+        try: out["ghost." + g] = pyval(m, t)
+        except Exception: pass
     if "result" in ex:
         try: out["$result"] = pyval(m, ex["result"])
         except Exception: pass
